@@ -275,30 +275,54 @@ func (s *scheduler) gate(g string, caller int) {
 }
 
 // run releases the gates in the scripted order; a step is released only after the caller arrived at it.
+// A caller whose Submit returned without reaching a gate (the call failed early) has its remaining steps skipped.
 func (s *scheduler) run(steps []gateStep, finished <-chan int) {
 	arrived := map[gateStep]bool{}
+	gone := map[int]bool{}
+	giveUp := func() {
+		// the code under test keeps a caller from reaching its gate (e.g. it serialises calls):
+		// not a violation; stop scheduling and let everything run
+		s.mu.Lock()
+		s.exact = false
+		s.mu.Unlock()
+		close(s.free)
+	}
 	for _, st := range steps {
 		deadline := time.After(2 * time.Second)
-		for !arrived[st] {
+		for !arrived[st] && !gone[st.caller] {
 			select {
 			case a := <-s.arrive:
 				arrived[a] = true
+			case i := <-finished:
+				gone[i] = true
 			case <-deadline:
-				// the code under test keeps this caller from reaching its gate (e.g. it serialises calls):
-				// not a violation; stop scheduling and let everything run
-				s.mu.Lock()
-				s.exact = false
-				s.mu.Unlock()
-				close(s.free)
+				giveUp()
 				return
 			}
+		}
+		if gone[st.caller] {
+			s.mu.Lock()
+			s.exact = false
+			s.mu.Unlock()
+			continue
 		}
 		s.mu.Lock()
 		s.log = append(s.log, M{"caller": st.caller, "gate": st.gate})
 		s.mu.Unlock()
 		close(s.release[st])
-		if st.gate == "reader" {
-			<-finished // the call returns before the next gate is released
+		if st.gate == "reader" { // the call returns before the next gate is released
+			deadline := time.After(2 * time.Second)
+			for !gone[st.caller] {
+				select {
+				case a := <-s.arrive:
+					arrived[a] = true
+				case i := <-finished:
+					gone[i] = true
+				case <-deadline:
+					giveUp()
+					return
+				}
+			}
 		}
 	}
 }
